@@ -144,15 +144,37 @@ impl Ctx {
         fails
     }
 
+    fn classify(&mut self, rd: &mut QueryServerReadTransaction<'_>, t: &T) -> String {
+        let d1 = has_isolated_not(t, false);
+        let f2 = has_empty_needle(t);
+        if d1 && self.eval(rd, &guard_nots(t, false), false).is_empty() {
+            "D1:isolated-not".into()
+        } else if f2 && self.eval(rd, &fill_needles(t), false).is_empty() {
+            "C01-F2:empty-substring-needle".into()
+        } else if d1 && f2 && self.eval(rd, &guard_nots(&fill_needles(t), false), false).is_empty() {
+            "C01-F2:empty-substring-needle".into()
+        } else {
+            "unclassified".into()
+        }
+    }
+
     fn run(&mut self, rd: &mut QueryServerReadTransaction<'_>, t: &T) {
         let fails = self.eval(rd, t, true);
         if fails.is_empty() {
             return;
         }
+        // answers of shrunk / rewritten trees seen while a defect is being examined must not
+        // become the reference for later windows
+        let saved = self.seen.clone();
+        let class0 = self.classify(rd, t);
+        if class0 != "unclassified" && self.known_recorded.get(&class0).copied().unwrap_or(0) >= 2 {
+            self.rep.count(&format!("known:{class0}"));
+            self.seen = saved;
+            return;
+        }
         let mut cur = t.clone();
         let mut cur_fails = fails;
         let mut budget = 120;
-        let saved = self.seen.clone();
         'outer: loop {
             for cand in shrinks(&cur) {
                 if budget == 0 {
@@ -168,26 +190,11 @@ impl Ctx {
             }
             break;
         }
-        let mut class = "unclassified".to_string();
-        let d1 = has_isolated_not(&cur, false);
-        let f2 = has_empty_needle(&cur);
-        if d1 && self.eval(rd, &guard_nots(&cur, false), false).is_empty() {
-            class = "D1:isolated-not".into();
-        } else if f2 && self.eval(rd, &fill_needles(&cur), false).is_empty() {
-            class = "C01-F2:empty-substring-needle".into();
-        } else if d1 && f2 && self.eval(rd, &guard_nots(&fill_needles(&cur), false), false).is_empty() {
-            class = "C01-F2:empty-substring-needle".into();
-        }
-        // answers of shrunk / rewritten trees seen while a defect was being minimised must not
-        // become the reference for later windows
+        let class = self.classify(rd, &cur);
         self.seen = saved;
         if class != "unclassified" {
             self.rep.count(&format!("known:{class}"));
-            let n = self.known_recorded.entry(class.clone()).or_insert(0);
-            if *n >= 2 {
-                return;
-            }
-            *n += 1;
+            *self.known_recorded.entry(class.clone()).or_insert(0) += 1;
         }
         for mut f in cur_fails {
             f.class = class.clone();
